@@ -20,18 +20,20 @@ pub open spec fn list_insert(l: Seq<Node>, n: Node, asc: bool) -> Seq<Node> {
   l.insert(first_idx(l, n.1, asc), n)
 }
 
-/// find_position: the returned cell is list cell i (-1 = sentinel), no node up to i satisfies the comparator,
-/// and node i+1 (if any) does
-pub open spec fn fp_post<F: Fn(u32, u32) -> bool>(s: SV, val: u32, check: F, r: (u64, CellRef), i: int) -> bool {
-  &&& -1 <= i < s.list.len() && r.1 == cell_of(s.list, i) && r.0 == word(s, r.1)
-  &&& forall|j: int| 0 <= j <= i ==> check.ensures((val, #[trigger] s.list[j].1), false)
-  &&& (i + 1 == s.list.len() || check.ensures((val, s.list[i + 1].1), true))
+/// the comparator closure `check` implements the policy comparator chk(asc, ., .)
+pub open spec fn cmp_is<F: Fn(u32, u32) -> bool>(check: F, asc: bool) -> bool {
+  forall|a: u32, b: u32, res: bool| #[trigger] check.ensures((a, b), res) ==> res == chk(asc, a, b)
 }
-/// find_prev_and_next: node i is the first one satisfying the comparator; its predecessor cell is returned too
-pub open spec fn fpn_some<F: Fn(u32, u32) -> bool>(s: SV, val: u32, check: F, p: ((u64, CellRef), (u64, CellRef)), i: int) -> bool {
-  &&& 0 <= i < s.list.len()
-  &&& p.0.1 == cell_of(s.list, i - 1) && p.1.1 == cell_of(s.list, i)
-  &&& p.0.0 == word(s, p.0.1) && p.1.0 == word(s, p.1.1)
-  &&& forall|j: int| 0 <= j < i ==> check.ensures((val, #[trigger] s.list[j].1), false)
-  &&& check.ensures((val, s.list[i].1), true)
+/// find_position: returns the cell (and its word) after which a node of size `val` belongs
+pub open spec fn fp_post(s: SV, val: u32, asc: bool, r: (u64, CellRef)) -> bool {
+  r.1 == cell_of(s.list, first_idx(s.list, val, asc) - 1) && r.0 == word(s, r.1)
+}
+/// find_prev_and_next: Some((prev, node)) for the first node satisfying the comparator, None if there is none
+pub open spec fn fpn_post(s: SV, val: u32, asc: bool, r: Option<((u64, CellRef), (u64, CellRef))>) -> bool {
+  let i = first_idx(s.list, val, asc);
+  match r {
+    None => i == s.list.len(),
+    Some(p) => 0 <= i < s.list.len() && p.0.1 == cell_of(s.list, i - 1) && p.1.1 == cell_of(s.list, i)
+      && p.0.0 == word(s, p.0.1) && p.1.0 == word(s, p.1.1),
+  }
 }
